@@ -21,8 +21,10 @@ def family():
     from mc.flo import families as F
     yield from F.fam_cond_aux()
     yield from F.fam_cond_aux_fork()
-    if core.TIER != "quick":
-        yield from F.fam_cond_aux_two()
+    for label, prog, meta in F.fam_cond_aux_two():
+        # quick: two conditional auxes on the SAME frame, one finishing while the other keeps running
+        if core.TIER != "quick" or ("dx0-dy0" in label and label.split("/")[1] in ("repeat1-never", "repeat1-repeat1", "never-repeat1")):
+            yield label, prog, meta
 
 
 def on_prog(p, idx, label, prog, meta):
